@@ -21,7 +21,7 @@ def sleepq(name, nintr, extra=(), kf=None, solver="z3", unit_defs=(), tmo=900):
              unit_defs=list(unit_defs), unwindset={"p_uthread_sleep.0": nintr + 2}, funcs=["p_uthread_sleep", "p_error_get_last_system"], kf=kf,
              bounds={"msec": "all 2^32 values", "interruptions": nintr, "remaining_time": "any normalised 0<=rem<=req"}, timeout=tmo, solver=solver)
 def queries(tier):
-    n = 3 if tier == "quick" else 5
+    n = 3 if tier == "quick" else 8
     qs = [sleepq("sleep_intr%d" % n, n),                                   # local-invariant form, clock_nanosleep branch (as built)
           sleepq("sleep_sum_intr1", 1, ["CHECK_SUM"], solver="cvc5"),     # end-to-end sum of the model clock
           sleepq("sleep_nanosleep_intr%d" % n, n, unit_defs=["-UPLIBSYS_HAS_CLOCKNANOSLEEP"]),   # the nanosleep() branch of the same function
